@@ -118,7 +118,9 @@ def operand(P, it, b, k=0):
         return f"({{ rt::opnd({i}); {c} }})"
     if form == "block":
         reads = ", ".join(f"({rb}, rt::snap(&{name_of(rb)}))" for rb in it.get("reads", []))
-        return f"{{ rt::cap({i}, &[{reads}]); {c} }}"
+        # a `let mut` name must be usable as such wherever it can be read
+        muts = "".join(f"rt::mutate(&mut {name_of(rb)}); " for rb in it.get("reads", []) if P["branches"][rb]["name"] == "letmut")
+        return f"{{ {muts}rt::cap({i}, &[{reads}]); {c} }}"
     raise ValueError(form)
 
 
